@@ -281,6 +281,11 @@ func immutableHistory(run *evid.Run, h int, wrapper bool) {
 		scripted = u.NestedDanglingOps(rng, u.Repos[rng.IntN(len(u.Repos))], "nested")
 		run.Count(what+"/nested_dangling_prefixes", 1)
 	}
+	if h%4 == 1 && !wrapper {
+		// a tagged index whose first entry is something the registry cannot read as what the index says it is
+		scripted = u.LyingChildOps(rng, u.Repos[rng.IntN(len(u.Repos))], "lying")
+		run.Count(what+"/lying_child_prefixes", 1)
+	}
 	for i := 0; i < 40+len(scripted); i++ {
 		var op *model.Op
 		if i < len(scripted) {
